@@ -157,6 +157,18 @@ class Report:
             self.trusted.append(s)
 
 
+# Search heuristic only (never decides a verdict): the single-call-site private helpers that exist on the tree the rules were
+# validated on, i.e. the units the rules already know as separate functions.  The first "inline everything" variant tried leaves
+# these alone and inlines every *other* eligible helper -- the ones an extract-method / split-into-steps refactoring introduced.
+# If one of them is renamed or removed upstream the only effect is that this particular variant is less likely to be accepted.
+BASELINE_UNITS = frozenset({
+    "_launch", "_kill", "_sendback_result", "_ensure_executor_running", "_wait_job_completion", "_cpu_count_cgroup", "_cpu_count_user",
+    "_count_physical_cores_darwin", "_kill_process_tree_without_psutil", "_windows_taskkill_process_tree", "_format_exitcodes",
+    "_check_not_importing_main", "_chain_initializers", "_enable_faulthandler_if_needed", "_resize", "_start_executor_manager_thread",
+    "_check_max_depth", "_check_system_limits", "_adjust_process_count", "_setup_queues", "_python_exit", "_process_worker", "_feed",
+})
+
+
 def _selections(e, bad, err=None):
     """helper selections to try, most specific first: helpers related to the functions a finding names (the helper itself, or
     a helper called there), one at a time, then together, then every eligible helper."""
@@ -178,8 +190,8 @@ def _selections(e, bad, err=None):
                         nm = n.func.attr if isinstance(n.func, _ast.Attribute) else n.func.id if isinstance(n.func, _ast.Name) else None
                         if nm in names and nm not in rel:
                             rel.append(nm)
-    if bad and not rel:
-        return          # no helper is called from (or is) a function the findings name: inlining cannot change what the rule saw there
+    if bad and not rel and not [n for n in names if n not in BASELINE_UNITS]:
+        return          # no helper is called from (or is) a function the findings name, none was introduced: inlining changes nothing there
     seen = set()
     tail = []
     if not bad:
@@ -188,7 +200,8 @@ def _selections(e, bad, err=None):
             paths = [k[0] for k in cands if k[2] == n]
             return 0 if err and any(p_[:-3].replace("/", ".") in err for p_ in paths) else 1
         tail = [[n] for n in sorted((n for n in names if n not in rel), key=lambda n: (pri(n), n))][:12]
-    for sel in [[n] for n in rel] + ([rel] if len(rel) > 1 else []) + [None] + tail:
+    fresh = [n for n in names if n not in BASELINE_UNITS]
+    for sel in [[n] for n in rel] + ([rel] if len(rel) > 1 else []) + ([fresh] if fresh else []) + [None] + tail:
         key = None if sel is None else frozenset(sel)
         if key in seen:
             continue
